@@ -71,7 +71,10 @@ def install_cache_clocks(clock):
         import dogpile.cache.region
         import dogpile.cache.api
 
+        import dogpile.lock
+
         setg(dogpile.cache.region, "time", tshim)
+        setg(dogpile.lock, "time", tshim)
         if hasattr(dogpile.cache.api, "time"):
             setg(dogpile.cache.api, "time", tshim)
     except ImportError:
